@@ -185,6 +185,10 @@ def run_behaviour(beh, variant: str, durs, via_defaults: bool, rng: random.Rando
             # deleting and restoring the second file is not part of the model: interleave it here
             if a != "TickBegin" and rng.random() < 0.04:
                 req(node_p + ["file_system", "delete", "file", h["folder"], h["files"][1]])
+            if a != "TickBegin" and variant == "db" and rng.random() < 0.05:
+                # the database file itself is deleted now and then (the next restore of the backup brings a new one, which
+                # continues the visible health last seen for the database file)
+                req(node_p + ["file_system", "delete", "file", h["folder"], h["files"][0]])
             if h["browser"] is not None and a != "TickBegin":
                 # benign activity that is not in the model: a user asks the web server for a page; the database
                 # behind it is sometimes stopped / started
